@@ -181,6 +181,17 @@ func recvMutantsV2(s *PL, w *ksim.World, p channeltypesv2.Packet, proof []byte, 
 		q.Payloads[i].DestinationPort = q.Payloads[i].SourcePort
 		add(fmt.Sprintf("payload%d-dest-port", i), q, proof, ph)
 	}
+	if len(p.Payloads) > 1 {
+		// multi-payload packets: a family of 512 forged values per payload position (a commitment that binds a
+		// payload by only a few bits is found by one of them)
+		for i := range p.Payloads {
+			for k := 0; k < 512; k++ {
+				q = clone()
+				q.Payloads[i].Value = []byte(fmt.Sprintf("forged-%d", k))
+				add(fmt.Sprintf("payload%d-forged@%d", i, k), q, proof, ph)
+			}
+		}
+	}
 	q = clone()
 	q.Payloads = append(q.Payloads, p.Payloads[0])
 	add("payload-added", q, proof, ph)
